@@ -121,6 +121,7 @@ type Sim struct {
 	tape        *Tape
 	aux         *rand.Rand
 	gap         int
+	calm        bool // Calm(true): yield points do not count towards the next preemption
 	pctLow      int // policy pct: next priority below everybody else
 	weights     map[string]int
 	seq         atomic.Int64
@@ -294,6 +295,11 @@ func (s *Sim) yield(site string, force bool) {
 		}
 		if !force {
 			cover[site]++
+			if s.calm {
+				g.tick++
+				s.mu.Unlock()
+				return
+			}
 			s.gap -= s.weight(site)
 			if s.gap > 0 {
 				g.tick++
@@ -309,6 +315,21 @@ func (s *Sim) yield(site string, force bool) {
 	g.site = site
 	s.mu.Unlock()
 	<-g.resume
+}
+
+// Calm switches statement-level preemption off (true) and on again (false):
+// for the long preparations of a scenario - a thousand registrations made by
+// one goroutine before anybody else is at work - whose yield points would
+// otherwise use up the run's budget of scheduling decisions. Blocking points
+// and I/O remain scheduling decisions.
+func Calm(on bool) {
+	s := cur.Load()
+	if s == nil {
+		return
+	}
+	s.mu.Lock()
+	s.calm = on
+	s.mu.Unlock()
 }
 
 // Blocking records where the calling goroutine is about to block (shims call
